@@ -108,9 +108,13 @@ def find_fn(src, selector, security=False, impl_re=None, nth=None):
     return cands[0]
 
 
-def find_type(src, kind, name, security=False):
+def find_type(src, kind, name, security=False, nth=None):
     cands = [it for it in rscan.top_items(src)
              if it.kind == kind and it.name == name and cfg_ok(it.attrs, security)]
+    if nth is not None and len(cands) > nth:
+        # `nth=k` on `@@extract struct|enum` (added for unit `sec_attrs`): the k-th (0-based, source
+        # order) of several types of that name in one file (e.g. one at top level, one in `mod xml`)
+        return cands[nth]
     if len(cands) != 1:
         raise Undecided('lost-anchor', '%s %s: %d candidates' % (kind, name, len(cands)))
     return cands[0]
@@ -615,12 +619,15 @@ class ArmText:
     binding of the pattern is a parameter; no other local of the enclosing function (parameters,
     `let` / `while let` / `if let` / `for` bindings of the enclosing blocks) occurs in the arm."""
 
-    def __init__(self, repo, rel, selector, pattern, name, params, security=False, impl_re=None, nth=None):
+    def __init__(self, repo, rel, selector, pattern, name, params, security=False, impl_re=None, nth=None,
+                 ret=None, outer_ok=None):
+        # `ret="<type>"` / `outer="p1,p2"` (added for unit `sec_attrs`): see the two R11x comments below
         self.rel, self.selector = rel, selector
         src = load_src(repo, rel)
         it = find_fn(src, selector, security, impl_re, nth)
         if it.open_si is None:
             raise Undecided('unsupported-construct', 'fn %s has no body' % selector)
+        outer_ok = [x.strip() for x in (outer_ok or '').split(',') if x.strip()]
         ptoks = norm_tokens(pattern)
         if ptoks and ptoks[-1] == '=>':
             ptoks = ptoks[:-1]
@@ -634,10 +641,23 @@ class ArmText:
         if src.s(p0 - 1) not in ('{', ',', '}'):
             raise Undecided('lost-anchor', 'arm %r of %s: pattern does not start a match arm' % (pattern, selector))
         ob = arrow + 1
-        if src.s(ob) != '{':
+        expr_arm = False
+        if src.s(ob) != '{' and ret is not None:
+            # R11x (unit sec_attrs): with `ret="<type>"` the arm may be an expression `PAT => EXPR,`; the
+            # generated function is `fn <name>(<params>) -> <type> { EXPR }` (EXPR verbatim, up to the
+            # depth-0 ',' that ends the arm or the '}' that ends the match)
+            expr_arm = True
+            e_end = expr_end(src, ob, it.end_si)
+            if e_end <= ob:
+                raise Undecided('unsupported-construct', 'arm %r of %s: empty body' % (pattern, selector))
+            cb = e_end          # exclusive end of the scanned tokens; first token is ob
+            a, b = src.t(ob).pos, src.t(e_end - 1).end
+            ob = ob - 1         # so that range(ob + 1, cb) below covers the whole expression
+        elif src.s(ob) != '{':
             raise Undecided('unsupported-construct', 'arm %r of %s: body is not a block' % (pattern, selector))
-        cb = src.match[ob]
-        a, b = src.t(ob).pos, src.t(cb).end
+        else:
+            cb = src.match[ob]
+            a, b = src.t(ob).pos, src.t(cb).end
         # ---- the inputs of the generated function are exactly `self` + the bindings of the pattern
         psrc = Src(params)
         pnames = []
@@ -656,7 +676,7 @@ class ArmText:
             j += 1
         binders = _binders(src, p0, arrow)
         for pn in pnames:
-            if pn != 'self' and pn not in binders:
+            if pn != 'self' and pn not in binders and pn not in outer_ok:
                 raise Undecided('unsupported-construct', 'R11: parameter %s of %s is not a binding of the arm pattern' % (pn, name))
         for bn in binders:
             if bn not in pnames:
@@ -712,14 +732,60 @@ class ArmText:
                     outer.update(_binders(src, k + 1, e)); k = e
                 k += 1
         outer.discard('self')
+        if outer_ok:
+            # R11x (unit sec_attrs): `outer="p1,p2"` — parameters of the ENCLOSING function that the arm
+            # uses are handed to the generated function under the same name.  Checked: each is a
+            # parameter of the enclosing function, is declared there with token-identical text
+            # (`name: Type`) as in params=, and is not re-bound by a `let`/`for` of the enclosing blocks
+            # (the generated function is then verified for EVERY value of that type, which covers
+            # whatever value the parameter has when the arm runs)
+            def _split_params(ps, lo, hi):
+                out_, cur_ = [], []
+                q = lo
+                while q < hi:
+                    s_ = ps.s(q)
+                    if s_ in rscan.OPEN:
+                        cur_.extend(ps.s(x) for x in range(q, ps.match[q] + 1)); q = ps.match[q] + 1; continue
+                    if s_ == ',':
+                        out_.append(cur_); cur_ = []
+                    else:
+                        cur_.append(s_)
+                    q += 1
+                if cur_: out_.append(cur_)
+                return out_
+            enc_params = _split_params(src, po + 1, src.match[po]) if src.s(po) == '(' else []
+            gen_params = _split_params(psrc, 0, psrc.n())
+            enc_names = set(_binders(src, po + 1, src.match[po])) if src.s(po) == '(' else set()
+            rebound = set()
+            for o in range(it.open_si, p0):
+                if src.s(o) == 'let' or (src.s(o) == 'for' and src.s(o + 1) != '<'):
+                    e = o + 1
+                    while e < p0 and src.s(e) not in ('=', ';', 'in'):
+                        e += 1
+                    rebound.update(_binders(src, o + 1, e))
+            for on in outer_ok:
+                if on not in enc_names or on in rebound or on in binders:
+                    raise Undecided('unsupported-construct', 'R11: outer=%s is not a plain parameter of %s in scope at the arm' % (on, selector))
+                decl = [p_ for p_ in enc_params if p_ and (p_[0] == on or (p_[0] == 'mut' and len(p_) > 1 and p_[1] == on))]
+                gen = [p_ for p_ in gen_params if p_ and p_[0] == on]
+                if len(decl) != 1 or len(gen) != 1 or [x for x in decl[0] if x != 'mut'] != gen[0]:
+                    raise Undecided('unsupported-construct', 'R11: outer=%s: params= must repeat the declaration of %s in %s' % (on, on, selector))
         for i in range(ob + 1, cb):
             t = src.t(i)
+            if t.kind == 'ident' and t.s in outer_ok and t.s not in binders:
+                continue
             if t.kind == 'ident' and t.s in outer and t.s not in binders \
                     and src.s(i - 1) not in ('.', '::') and src.s(i + 1) != '::':
                 raise Undecided('unsupported-construct', 'R11: arm %r of %s uses `%s`, a local of the enclosing function'
                                 % (pattern, selector, t.s))
         hdr = 'fn %s(%s) ' % (name, ' '.join(params.split()))
-        self.orig = hdr + src.text[a:b]
+        if ret is not None:
+            hdr = 'fn %s(%s) -> %s ' % (name, ' '.join(params.split()), ' '.join(ret.split()))
+        if expr_arm:
+            self.orig = hdr + '{ ' + src.text[a:b] + ' }'
+        else:
+            self.orig = hdr + src.text[a:b]
+        self.orig_plain = hdr + src.text[a:b]
         self.first_line = src.line_of(a)
         self.last_line = src.line_of(b)
         self.arm_first_line = src.line_of(src.t(p0).pos)
@@ -872,6 +938,85 @@ def rw_mut_self(text, fired, fname):
     return ed.apply()
 
 
+def rw_param_pat(text, pname, fired, fname):
+    """R26 (added for unit `sec_attrs`, directive `@@param_pat <name>`): the ONE parameter of the
+    function that is written as a destructuring pattern (`fn from(S { a, b }: S) -> ..`, which Verus
+    rejects: "function parameters must be a plain identifier pattern") becomes the plain parameter
+    `<name>: S`, and the body starts with `let S { a, b } = <name>;` (PAT verbatim) — the meaning of a
+    pattern parameter.  UNDECIDED unless exactly one parameter is a pattern and <name> does not occur
+    in the function.  In contracts the parameter is called <name>."""
+    src = Src(text)
+    fn_si = next(i for i in range(src.n()) if src.s(i) == 'fn')
+    p_open = fn_si + 2
+    if src.s(p_open) == '<':
+        p_open = src.skip_generics(p_open)
+    if src.s(p_open) != '(':
+        raise Undecided('unsupported-construct', 'param_pat: cannot find parameter list of %s' % fname)
+    p_close = src.match[p_open]
+    ob = rscan.find_block_open(src, fn_si)
+    if any(src.t(i).kind == 'ident' and src.s(i) == pname for i in range(src.n())):
+        raise Undecided('unsupported-construct', 'param_pat: name %s already occurs in %s' % (pname, fname))
+    # split the parameter list at depth-0 commas; the pattern of a parameter ends at its depth-0 ':'
+    hits = []
+    j = p_open + 1
+    start = j
+    colon = None
+    while j <= p_close:
+        s = src.s(j)
+        if j == p_close or s == ',':
+            if colon is not None and start < colon:
+                pat = [src.s(x) for x in range(start, colon)]
+                plain = (len(pat) == 1 and src.t(start).kind == 'ident') or (len(pat) == 2 and pat[0] == 'mut')
+                if not plain:
+                    hits.append((start, colon))
+            start = j + 1
+            colon = None
+            j += 1
+            continue
+        if s in rscan.OPEN:
+            j = src.match[j] + 1; continue
+        if s == '<':
+            j = src.skip_generics(j); continue
+        if s == ':' and colon is None:
+            colon = j
+        j += 1
+    if len(hits) != 1:
+        raise Undecided('lost-anchor', 'param_pat: %s has %d pattern parameters (need exactly 1)' % (fname, len(hits)))
+    a, b = src.t(hits[0][0]).pos, src.t(hits[0][1] - 1).end
+    pat_txt = text[a:b]
+    ed = Edits(text)
+    ed.replace(a, b, pname + keep_newlines(pat_txt))
+    ed.insert(src.t(ob).end, ' let %s = %s;' % (' '.join(pat_txt.split()), pname))
+    fired.append(('R26', src.line_of(a), 'pattern parameter `%s` -> %s + let at body start' % (' '.join(pat_txt.split()), pname)))
+    return ed.apply()
+
+
+SIG_DIRECTIVES = ('ret', 'nopub', 'requires', 'ensures', 'subst', 'drop_where', 'rename', 'mut_self', 'param_pat')
+
+
+def degrade_function(ft, directives, security=False):
+    """Graceful degradation (DESIGN 11.2): the body of ONE function that cannot be brought through
+    extraction or the Verus front end is dropped (newlines kept); its signature and contract stay
+    in the unit as an ASSUMED contract (`external_body`), so that every other function of the unit
+    is still checked against it.  The function itself is reported UNDECIDED by `check` — never as
+    discharged, never as a violation."""
+    import copy
+    src = Src(ft.orig)
+    fn_si = next(i for i in range(src.n()) if src.s(i) == 'fn')
+    ob = rscan.find_block_open(src, fn_si)
+    cb = src.match[ob]
+    a, b = src.t(ob).end, src.t(cb).pos
+    ft2 = copy.copy(ft)
+    ft2.fired = []
+    ft2.orig = ft.orig[:a] + ' unimplemented!() ' + keep_newlines(ft.orig[a:b]) + ft.orig[b:]
+    ds2 = [d for d in directives if d.kind in SIG_DIRECTIVES]
+    lines = splice_function(ft2, ds2, security)
+    ft.fired = ft2.fired + [('degraded', ft.first_line, 'body dropped, contract kept as assumed (external_body)')]
+    tx0, o0 = lines[0]
+    lines[0] = ('#[verifier::external_body] ' + tx0, o0)
+    return lines
+
+
 def splice_function(ft, directives, security=False):
     """returns list of (text_line, origin) for the function with contracts spliced"""
     fired = ft.fired
@@ -919,6 +1064,9 @@ def splice_function(ft, directives, security=False):
             text = rw_chain_loop(text, int(ca[0]), ca[1], ca[2], fired, ft.name)
     if any(d.kind == 'mut_self' for d in directives):
         text = rw_mut_self(text, fired, ft.name)
+    for d in directives:
+        if d.kind == 'param_pat':
+            text = rw_param_pat(text, d.arg.strip(), fired, ft.name)   # R26 (unit sec_attrs)
     if text.count('\n') != ft.orig.count('\n'):
         raise Undecided('unsupported-construct', 'internal: rewrite changed line count')
 
@@ -1490,7 +1638,7 @@ def rw_ref_pattern(pat, fired, line):
 
 def extract_type(repo, rel, kind, name, opts, security, rec):
     src = load_src(repo, rel)
-    it = find_type(src, kind, name, security)
+    it = find_type(src, kind, name, security, int(opts['nth']) if opts.get('nth') not in (None, True, '') else None)
     a = src.t(it.start_si).pos
     b = src.t(it.end_si).end
     orig = src.text[a:b]
@@ -1620,6 +1768,14 @@ def extract_type(repo, rel, kind, name, opts, security, rec):
     lines = []
     if derive:
         lines.append(('#[derive(%s)]' % derive.replace(',', ', '), {'o': 'tmpl'}))
+    if opts.get('repr') == 'keep':
+        # `repr=keep` (added for unit `sec_attrs`): the item's own `#[repr(..)]` attribute is semantic
+        # (it fixes the integer type of explicit discriminants, `E::V as u32`) and is copied verbatim
+        # instead of being dropped with the other attributes (R2)
+        reprs = [a_ for a_ in it.attrs if re.sub(r'\s+', '', a_).startswith('#[repr(')]
+        if len(reprs) != 1:
+            raise Undecided('lost-anchor', '%s %s: %d #[repr] attributes (repr=keep)' % (kind, name, len(reprs)))
+        lines.append((' '.join(reprs[0].split()), {'o': 'tmpl'}))
     ln = first_line
     for raw in body.split('\n'):
         lines.append((raw, {'o': 'src', 'file': rel, 'line': ln, 'fn': kind + ' ' + name}))
@@ -1764,13 +1920,16 @@ def parse_kv(s):
     return pos, out
 
 
-def build_unit(verif_root, repo, unit, security=None):
+def build_unit(verif_root, repo, unit, security=None, force_degrade=None):
     """returns dict(path=..., map=[origin per line], record=[extraction records], labels={label: [lines]})"""
     tpath = os.path.join(verif_root, 'vx', 'units', unit + '.rs.tmpl')
     out_lines = []
     record = []
     unit_security = [bool(security)]
     keep_extra = {}
+    extra_for = {}
+    degraded = {}          # fn name -> reason (graceful degradation, see degrade_function)
+    force_degrade = dict(force_degrade or {})
 
     def process(path, depth=0):
         if depth > 8:
@@ -1799,6 +1958,25 @@ def build_unit(verif_root, repo, unit, security=None):
                 # too — R9 unchanged, only the unit-specific choice of kept fields is widened
                 pos_k, kv_k = parse_kv(st[len('@@keep_extra '):])
                 keep_extra[pos_k[0]] = kv_k
+                i += 1
+                continue
+            if st.startswith('@@extra_for '):
+                # (added for unit `acknack`) `@@extra_for <Selector>` .. sub-directives .. `@@end`: the
+                # sub-directives (additional @@ensures / proof hints) are appended to those of a later
+                # `@@extract fn <file> <Selector>` — e.g. one inside a shared part, whose own contract
+                # stays as it is; the extra clauses are proved on the real text in THIS unit only
+                sel_x = st[len('@@extra_for '):].strip()
+                i += 1
+                cur_x = None
+                while i < len(raw) and raw[i].strip() != '@@end':
+                    s2x = raw[i].strip()
+                    if s2x.startswith('@@'):
+                        mx = re.match(r'@@(\w+)\s*(.*)$', s2x)
+                        cur_x = Directive(mx.group(1), mx.group(2), i + 1)
+                        extra_for.setdefault(sel_x, []).append(cur_x)
+                    elif cur_x is not None:
+                        cur_x.payload += raw[i] + '\n'
+                    i += 1
                 i += 1
                 continue
             if st.startswith('@@extract '):
@@ -1832,7 +2010,8 @@ def build_unit(verif_root, repo, unit, security=None):
                         if len(pos) != 4 or 'as' not in kv or 'params' not in kv:
                             raise Undecided('unsupported-construct', '%s: @@extract arm needs <file> <fn> "<pattern>" as= params=' % relpath)
                         ft = ArmText(repo, rel, sel, pos[3], kv['as'], kv['params'], sec, kv.get('impl'),
-                                     int(kv['nth']) if 'nth' in kv else None)
+                                     int(kv['nth']) if 'nth' in kv else None, **({'ret': kv.get('ret'), 'outer_ok': kv.get('outer')}
+                                                                                 if ('ret' in kv or 'outer' in kv) else {}))
                         lines = splice_function(ft, ds, sec)
                         out_lines.extend(lines)
                         record.append({'item': 'fn ' + ft.name, 'file': rel, 'lines': [ft.arm_first_line, ft.last_line],
@@ -1840,11 +2019,24 @@ def build_unit(verif_root, repo, unit, security=None):
                                        'labels': sorted({o['label'] for _, o in lines if o.get('o') == 'clause' and 'label' in o})})
                         continue
                     ft = FnText(repo, rel, sel, sec, kv.get('impl'), int(kv['nth']) if 'nth' in kv else None)
+                    if sel in extra_for:
+                        ds.extend(extra_for[sel])       # `@@extra_for <Selector>` of this unit
                     if 'as' in kv:
                         d = Directive('rename', kv['as'], 0)
                         ds.append(d)
                         ft.name = (sel.rsplit('::', 1)[0] + '::' if '::' in sel else '') + kv['as']
-                    lines = splice_function(ft, ds, sec)
+                    try:
+                        if ft.name in force_degrade:
+                            raise Undecided('unsupported-construct', force_degrade[ft.name])
+                        lines = splice_function(ft, ds, sec)
+                    except Undecided as e_fn:
+                        if os.environ.get('VERIF_NO_DEGRADE'):
+                            raise
+                        try:
+                            lines = degrade_function(ft, ds, sec)
+                        except (Undecided, StopIteration, KeyError, IndexError):
+                            raise e_fn
+                        degraded[ft.name] = '%s: %s' % (e_fn.reason, e_fn.detail)
                     for (tx, o) in lines:
                         if 'as' in kv and 'fn' in o:
                             pass
@@ -1924,4 +2116,4 @@ def build_unit(verif_root, repo, unit, security=None):
     omap = [o for _, o in out_lines]
     with open(os.path.join(bdir, unit + '.map.json'), 'w') as f:
         json.dump({'map': omap, 'record': record}, f)
-    return {'path': opath, 'map': omap, 'record': record}
+    return {'path': opath, 'map': omap, 'record': record, 'degraded': degraded}
